@@ -327,14 +327,162 @@ Proof.
       * intros [Nw [b [Hb [Eb Rb]]]]. exists b. split; auto. apply in_drop_key. split; auto. intros E. apply Nw.
         unfold akey in E. unfold w. inversion E. congruence.
       * intros [b [Hb [Eb Rb]]]. apply in_drop_key in Hb. destruct Hb as [Hb Kb]. split; [|exists b; auto].
-        intros ->. apply Kb. f_equal. apply Hro; auto. unfold w in Eb. exact Eb.
+        intros ->. apply Kb. f_equal. apply Hro; auto.
     + rewrite Hr. split; intros [b [Hb [Eb Rb]]]; exists b; split; auto.
       * apply in_drop_key. split; auto. intros E. assert (b = a) by (apply (okeys_same L); auto). subst b. congruence.
   - destruct (o_reconsider a); [apply nodup_set_del|]; exact Hrn.
   - intros b c Hb Hc. apply Hro; apply InL'; auto.
-  - pose proof (length_filter_le (fun b => negb (is_oann w p b)) L) as X. fold L' in X. unfold drop_key in X. lia.
+  - assert (X : (length L' <= length L)%nat) by (unfold L', drop_key; apply length_filter_le). lia.
   - unfold MAXLAT_LIMIT. exact Hml.
   - exact Hres.
+Qed.
+
+(* ---------- the emplace of AddTx / AddAnnouncer ---------- *)
+Lemma have_tx_mem l w : existsb (has_wtxid w) l = set_mem w (map o_wtxid l).
+Proof.
+  unfold set_mem. induction l as [|x l IH]; [reflexivity|]. cbn [existsb map]. rewrite IH. f_equal.
+  unfold has_wtxid. apply Z.eqb_sym.
+Qed.
+
+Lemma okeys_snoc l a : okeys l -> (forall b, In b l -> akey b <> akey a) -> okeys (l ++ [a]).
+Proof.
+  unfold okeys. induction l as [|x l IH]; intros N H; simpl.
+  - constructor; [intros []|constructor].
+  - simpl in N. inversion N; subst. constructor.
+    + rewrite map_app, in_app_iff. simpl. intros [X|[X|[]]]; [auto|]. apply (H x (or_introl eq_refl)). auto.
+    + apply IH; auto. intros b Hb. apply H. right. auto.
+Qed.
+
+Lemma wtxids_snoc l a f : dsum f (l ++ [a]) = dsum f l + (if existsb (has_wtxid (o_wtxid a)) l then 0 else f (o_wtxid a)).
+Proof. unfold dsum, wtxids_of. rewrite map_app. cbn [map]. rewrite dedup_sum_snoc, have_tx_mem. reflexivity. Qed.
+
+Lemma in_wtxids_snoc l a w : In w (wtxids_of (l ++ [a])) <-> In w (wtxids_of l) \/ w = o_wtxid a.
+Proof.
+  rewrite !in_wtxids. split.
+  - intros [b [Hb Eb]]. apply in_app_iff in Hb. destruct Hb as [Hb|[<-|[]]]; [left; exists b; auto|right; auto].
+  - intros [[b [Hb Eb]]| ->]; [exists b; split; auto; apply in_app_iff; auto|].
+    exists a. split; auto. apply in_app_iff. right. left. auto.
+Qed.
+
+Lemma add_ann_spec g w peer bn :
+  OWF g -> x_weight (tx_of w) <= ORPHAN_MAX_TX_WEIGHT -> have_tx_from_peer g w peer = false ->
+  bn = negb (have_tx g w) -> Z.of_nat (length (g_anns g)) <= g_maxlat g ->
+  let a := mkOA (tx_of w) peer (g_seq g) false in
+  g_anns (add_ann g (tx_of w) peer bn) = g_anns g ++ [a] /\ OWF (add_ann g (tx_of w) peer bn) /\
+  g_maxlat (add_ann g (tx_of w) peer bn) = g_maxlat g /\ g_reserved (add_ann g (tx_of w) peer bn) = g_reserved g.
+Proof.
+  intros W Hw Hnp Hbn Hlen0. cbv zeta. set (a := mkOA (tx_of w) peer (g_seq g) false).
+  destruct W as [Hbad Hk Ht Hpn Hp Hu Hus Hin Hom Hon Hr Hrn Hro Hlen Hml Hres].
+  set (L := g_anns g) in *.
+  assert (Wa : o_wtxid a = w) by (unfold o_wtxid; cbn [o_tx a]; apply tx_wtxid).
+  assert (Pa : o_peer a = peer) by reflexivity.
+  assert (Ht' : txs_ok (L ++ [a])).
+  { intros b Hb. apply in_app_iff in Hb. destruct Hb as [Hb|[<-|[]]]; [apply Ht; auto|].
+    split; [rewrite Wa; reflexivity|exact Hw]. }
+  assert (Ha' : In a (L ++ [a])) by (apply in_app_iff; right; left; auto).
+  destruct (ann_bounds (L ++ [a]) a Ht' Ha') as [Bm [Bl [Bl2 Bw]]]. rewrite Wa in Bl, Bl2, Bw.
+  assert (Fnew : forall b, In b L -> akey b <> akey a).
+  { intros b Hb E. unfold have_tx_from_peer in Hnp. fold L in Hnp.
+    assert (X : existsb (is_oann w peer) L = true).
+    { apply existsb_exists. exists b. split; auto. apply is_oann_true. rewrite E. unfold akey. rewrite Wa, Pa. reflexivity. }
+    congruence. }
+  unfold MAXLAT_LIMIT in Hml.
+  (* the peer's entry before *)
+  set (mp := filter (from_peer peer) L).
+  assert (SubP : forall b, In b mp -> In b L) by (intros b Hb; apply filter_In in Hb; tauto).
+  destruct (sums_of_peer_bounds L mp Ht SubP) as [S1 S2].
+  pose proof (length_filter_le (from_peer peer) L) as LenP. fold mp in LenP.
+  assert (Dold : match peer_find peer (g_peers g) with Some d => d | None => mkPD 0 0 0 end
+                 = mkPD (zsum_map mem_usage mp) (Z.of_nat (length mp)) (zsum_map latency_score mp)).
+  { rewrite (Hp peer). fold L mp. destruct (length mp =? 0)%nat eqn:E; [|reflexivity].
+    apply Nat.eqb_eq in E. destruct mp; [reflexivity|discriminate]. }
+  assert (Fnewp : filter (from_peer peer) (L ++ [a]) = mp ++ [a]).
+  { rewrite filter_app. cbn [filter]. unfold from_peer at 2. rewrite Pa, Z.eqb_refl. reflexivity. }
+  assert (WtN : forall x, 0 <= wt x) by (intros; apply tx_weight_nonneg).
+  assert (LsN : forall x, 0 <= lsc x - 1).
+  { intros x. unfold lsc. assert (0 <= Z.of_nat (length (x_inputs (tx_of x))) / 10) by (apply Z.div_pos; lia). lia. }
+  destruct (dsum_bounds L wt 400000 Ht WtN) as [Ub1 Ub2].
+  { intros b Hb. destruct (ann_bounds L b Ht Hb) as [X [_ [_ Y]]]. lia. }
+  destruct (dsum_bounds L (fun x => lsc x - 1) 244 Ht LsN) as [Ib1 Ib2].
+  { intros b Hb. destruct (ann_bounds L b Ht Hb) as [_ [_ [Y _]]]. lia. }
+  assert (Ulen : 0 <= Z.of_nat (length (wtxids_of L)) <= Z.of_nat (length L)).
+  { split; [lia|]. unfold wtxids_of. pose proof (dedup_length_le (map o_wtxid L)) as X. rewrite map_length in X. lia. }
+  assert (Hbn' : bn = negb (existsb (has_wtxid (o_wtxid a)) L)) by (rewrite Wa; exact Hbn).
+  unfold add_ann. fold a L. rewrite Dold. cbn [pd_usage pd_count pd_latency].
+  split; [reflexivity|]. split; [|cbn; auto].
+  constructor; cbn [g_bad g_anns g_unique g_usage g_inscores g_outmap g_recon g_peers g_maxlat g_reserved].
+  - exact Hbad.
+  - apply okeys_snoc; auto.
+  - exact Ht'.
+  - apply peer_set_nodup. exact Hpn.
+  - intros q. destruct (Z.eq_dec q peer) as [->|Nq].
+    + rewrite peer_find_set_same, Fnewp. rewrite app_length. cbn [length].
+      destruct (length mp + 1 =? 0)%nat eqn:E; [apply Nat.eqb_eq in E; lia|]. f_equal.
+      unfold recompute_peer. rewrite Fnewp, !zsum_map_app, app_length. cbn [zsum_map length]. f_equal.
+      * rewrite Z.add_0_r. apply wrap64_id. unfold INT64_MIN, INT64_MAX. lia.
+      * rewrite wrapu32_id by (unfold UINT32_MAX; lia). lia.
+      * rewrite Z.add_0_r. apply wrapu32_id. unfold UINT32_MAX. lia.
+    + rewrite peer_find_set_other by auto. rewrite (Hp q). fold L.
+      assert (Fq : filter (from_peer q) (L ++ [a]) = filter (from_peer q) L).
+      { rewrite filter_app. cbn [filter]. assert (X : from_peer q a = false) by (unfold from_peer; rewrite Pa; apply Z.eqb_neq; auto).
+        rewrite X. apply app_nil_r. }
+      unfold recompute_peer. rewrite Fq. reflexivity.
+  - pose proof (wtxids_snoc L a (fun _ => 1)) as X. unfold dsum in X. rewrite !zsum_map_const1 in X.
+    rewrite Hbn'. destruct (existsb (has_wtxid (o_wtxid a)) L); cbn [negb]; [rewrite Hu; lia|].
+    rewrite Hu, X. apply wrapu32_id. unfold UINT32_MAX. lia.
+  - pose proof (wtxids_snoc L a wt) as X. rewrite Wa in X.
+    rewrite Hbn'. rewrite Wa. destruct (existsb (has_wtxid w) L); cbn [negb]; [rewrite Hus; lia|].
+    rewrite Hus, X, Bw. apply wrap64_id. unfold INT64_MIN, INT64_MAX. lia.
+  - pose proof (wtxids_snoc L a (fun x => lsc x - 1)) as X. rewrite Wa in X. cbv beta in X.
+    rewrite Hbn'. rewrite Wa. destruct (existsb (has_wtxid w) L); cbn [negb]; [rewrite Hin; lia|].
+    rewrite Hin, X, Bl. rewrite (wrapu32_id (lsc w - 1)) by (unfold UINT32_MAX; lia). apply wrapu32_id. unfold UINT32_MAX. lia.
+  - intros k w'. rewrite in_wtxids_snoc, Wa. rewrite Hbn'. rewrite Wa.
+    destruct (existsb (has_wtxid w) L) eqn:Hv; cbn [negb].
+    + rewrite Hom. assert (Iw : In w (wtxids_of L)).
+      { apply existsb_exists in Hv. destruct Hv as [b [Hb Eb]]. apply has_wtxid_true in Eb. apply in_wtxids. exists b. auto. }
+      split; [tauto|]. intros [[A| ->] B]; auto.
+    + rewrite (om_fold (set_add (x_wtxid (tx_of w)))) by (intros; apply set_add_idem).
+      destruct (existsb (op_eqb k) (x_inputs (tx_of w))) eqn:Ek.
+      * rewrite tx_wtxid. rewrite in_set_add, Hom. apply existsb_exists in Ek. destruct Ek as [k' [Hk' Ek']].
+        apply op_eqb_true in Ek'. subst k'. split; [intros [->|[A B]]; auto | intros [[A| ->] B]; auto].
+      * rewrite Hom. split; [tauto|]. intros [[A| ->] B]; [auto|]. exfalso.
+        assert (X : existsb (op_eqb k) (x_inputs (tx_of w)) = true) by (apply existsb_exists; exists k; split; auto; apply op_eqb_refl).
+        congruence.
+  - intros k. destruct bn; [|apply Hon].
+    rewrite (om_fold (set_add (x_wtxid (tx_of w)))) by (intros; apply set_add_idem).
+    destruct (existsb (op_eqb k) (x_inputs (tx_of w))); [apply nodup_set_add|]; apply Hon.
+  - intros w'. rewrite Hr. split; intros [b [Hb [Eb Rb]]]; exists b; split; auto.
+    + apply in_app_iff. auto.
+    + apply in_app_iff in Hb. destruct Hb as [Hb|[<-|[]]]; [auto|discriminate].
+  - exact Hrn.
+  - intros b c Hb Hc Ew Rb Rc. apply in_app_iff in Hb, Hc.
+    destruct Hb as [Hb|[<-|[]]]; [|discriminate]. destruct Hc as [Hc|[<-|[]]]; [|discriminate]. apply Hro; auto.
+  - rewrite app_length. cbn [length]. lia.
+  - unfold MAXLAT_LIMIT. exact Hml.
+  - exact Hres.
+Qed.
+
+(* ---------- Erase over a list of announcements ---------- *)
+Definition keyed_in (ks : list oann) (b : oann) : bool := existsb (fun a => is_oann (o_wtxid a) (o_peer a) b) ks.
+
+Lemma erase_fold_spec : forall (ks : list oann) (g : orph),
+  OWF g -> NoDup (map akey ks) -> (forall a, In a ks -> In a (g_anns g)) ->
+  let g' := fold_left erase_ann ks g in
+  g_anns g' = filter (fun b => negb (keyed_in ks b)) (g_anns g) /\ OWF g' /\
+  g_seq g' = g_seq g /\ g_maxlat g' = g_maxlat g /\ g_reserved g' = g_reserved g.
+Proof.
+  induction ks as [|k ks IH]; intros g W N Hin; cbn [fold_left].
+  - split; [|auto]. symmetry. clear. induction (g_anns g) as [|x l IHl]; [reflexivity|]. cbn. f_equal. exact IHl.
+  - destruct (erase_ann_spec g k W (Hin k (or_introl eq_refl))) as [I1 [W1 [E1 [E2 E3]]]].
+    simpl in N. inversion N as [|? ? Hnk N']. subst.
+    destruct (IH (erase_ann g k) W1 N') as [I2 [W2 [F1 [F2 F3]]]].
+    + intros a Ha. rewrite I1. apply in_drop_key. split; [apply Hin; right; auto|].
+      intros E. apply Hnk. rewrite <- E. apply in_map. exact Ha.
+    + split; [|split; [exact W2|repeat split; congruence]].
+      rewrite I2, I1. unfold drop_key. clear. induction (g_anns g) as [|x l IHl]; [reflexivity|].
+      cbn [filter keyed_in existsb]. destruct (is_oann (o_wtxid k) (o_peer k) x) eqn:E; cbn [negb orb filter].
+      * exact IHl.
+      * unfold keyed_in in *. destruct (existsb (fun a => is_oann (o_wtxid a) (o_peer a) x) ks); cbn [negb]; [exact IHl|f_equal; exact IHl].
 Qed.
 
 End OInv.
